@@ -155,7 +155,7 @@ def place(rng, cell, rotated, crossings, existing, min_sep, tries=200, on_face=F
 
 
 def build(rng, pattern, cell_cls, atol, n_copies=2, crossings=None, poses=None, decoys=(), n_bystanders=6, n_distractors=3,
-          perturb=0.08, shuffle=True, min_sep=1.25, bystander_elements=("Ar", "Kr", "Xe")):
+          perturb=0.08, shuffle=True, min_sep=1.25, bystander_elements=("Ar", "Kr", "Xe"), whole_number_cell=False):
     """-> dict(atoms: mofun Atoms, cell, planted: [index lists in pattern order], crossings: [int], poses, decoy_groups, info)"""
     from mofun import Atoms
     ppos = np.asarray(pattern["positions"], float)
@@ -163,7 +163,7 @@ def build(rng, pattern, cell_cls, atol, n_copies=2, crossings=None, poses=None, 
     need = G.diameter(ppos) + 2 * atol
     cell = make_cell(rng, cell_cls, need)
     int_cell = 0
-    if cell_cls in ("ortho", "tri+-+", "tri-+-", "upper_tri") and rng.integers(4) == 0:
+    if cell_cls in ("ortho", "tri+-+", "tri-+-", "upper_tri") and (rng.integers(4) == 0 or whole_number_cell):
         # a cell typed with whole numbers, handed over as nested list of ints or as an integer array
         c2 = np.round(cell)
         if G.perp_widths(c2).min() > need + 0.3 and abs(np.linalg.det(c2)) > 1:
